@@ -520,6 +520,10 @@ pub enum DefPlan {
     LoadFlag(String),
     Store(u64),
     SpAdjust,
+    /// `RSP = RSP - c` / `RSP = RSP + c`
+    SpMove,
+    /// `RSP = RSP & -16`
+    SpAlign,
     SameVarTwice(String),
 }
 
@@ -602,8 +606,27 @@ fn plan_function(rng: &mut Rng, idx: usize, shape: &ProgShape, flavor: Flavor) -
         if !empty {
             let nd = 1 + rng.below(5);
             if i == 0 && rng.chance(1, 2) {
-                for _ in 0..(1 + rng.below(3)) {
-                    d.push(DefPlan::SpAdjust);
+                if rng.chance(1, 2) {
+                    // typical prologue: move the stack pointer, something else, align it (not adjacent,
+                    // adjacent assignments to the same register are merged by expression propagation)
+                    for _ in 0..(1 + rng.below(2)) {
+                        d.push(DefPlan::SpMove);
+                        if rng.chance(1, 2) {
+                            d.push(DefPlan::Store(8));
+                        }
+                    }
+                    d.push(DefPlan::Assign8(rng.pick(&REG8).to_string(), false));
+                    d.push(DefPlan::SpAlign);
+                    if rng.chance(1, 2) {
+                        d.push(DefPlan::Store(8));
+                        d.push(DefPlan::SpMove);
+                        d.push(DefPlan::AssignFlag(rng.pick(&FLAGS).to_string()));
+                        d.push(DefPlan::SpAlign);
+                    }
+                } else {
+                    for _ in 0..(1 + rng.below(3)) {
+                        d.push(DefPlan::SpAdjust);
+                    }
                 }
             }
             for _ in 0..nd {
@@ -826,6 +849,27 @@ pub fn gen_function(rng: &mut Rng, idx: usize, shape: &ProgShape, flavor: Flavor
                 }
                 DefPlan::SpAdjust => {
                     let e = sp_adjust(&mut g);
+                    push(&mut defs, Def::Assign { var: var("RSP", 8), value: e });
+                }
+                DefPlan::SpMove => {
+                    let c = *g.rng.pick(&[8u64, 8, 16, 0x18, 0x28, 0x100, 4, 1, 0xfffffffffffffff8, 0x7fffffffffffffff]);
+                    let op = if g.chance(3, 4) { BinOpType::IntSub } else { BinOpType::IntAdd };
+                    let e = if op == BinOpType::IntAdd && g.chance(1, 3) {
+                        e_bin(op, e_const(c, 8), e_var("RSP", 8))
+                    } else {
+                        e_bin(op, e_var("RSP", 8), e_const(c, 8))
+                    };
+                    g.count("sp-move");
+                    push(&mut defs, Def::Assign { var: var("RSP", 8), value: e });
+                }
+                DefPlan::SpAlign => {
+                    let m = e_const(0xfffffffffffffff0, 8);
+                    let e = if g.chance(1, 4) {
+                        e_bin(BinOpType::IntAnd, m, e_var("RSP", 8))
+                    } else {
+                        e_bin(BinOpType::IntAnd, e_var("RSP", 8), m)
+                    };
+                    g.count("sp-align16");
                     push(&mut defs, Def::Assign { var: var("RSP", 8), value: e });
                 }
                 DefPlan::SameVarTwice(n) => {
@@ -1074,6 +1118,16 @@ pub fn crafted_programs() -> Vec<(&'static str, Program)> {
             ),
             blk("b1", vec![], vec![j_return("j2", e_var("RCX", 8))]),
         ]),
+    ));
+    v.push(sa(
+        "sa-aligned-twice",
+        vec![
+            d_assign("d0", var("RSP", 8), e_bin(IntSub, rsp(), e_const(8, 8))),
+            d_assign("d1", var("RSP", 8), e_bin(IntAnd, rsp(), e_const(mask16, 8))),
+            d_assign("d2", var("RAX", 8), e_const(1, 8)),
+            d_assign("d3", var("RSP", 8), e_bin(IntAnd, rsp(), e_const(mask16, 8))),
+            d_store("d4", rsp(), e_var("RAX", 8)),
+        ],
     ));
     v.push(sa(
         "sa-align-8",
